@@ -24,7 +24,9 @@ REGISTRY = dict(
           "used: relaxation = sqrt(G)|g><r| in the emulator's (g,r[,x]) ordering and L^dag L = G|r><r|; depolarizing "
           "operators are +-P(Pulser's)P^T (every dim >= 2, ising and XY) hence same dissipator; dephasing has Pulser's "
           "dissipator in dim 2; eff_noise operators are sqrt(rate) P A P^T for XY (any dim) and ising dim 2; "
-          "_get_all_lindblad_noise_operators concatenates in noise_types order. PARTIAL in dim 3 (leakage level), two "
+          "_get_all_lindblad_noise_operators concatenates in noise_types order; PulserData.lindblad_ops are the operators of "
+          "the noise model in effect (device default if prefer_device_noise_model else config's; NoiseModel() if None), "
+          "independent of the other model. PARTIAL in dim 3 (leakage level), two "
           "defects of the unchanged code with kernel-checked counterexamples: (a) eff_noise ising flips only the 2x2 "
           "block (D5, pinned by test_flipping_right_elements): proved only for operators whose couplings to x are "
           "r<->g symmetric; (b) dephasing uses sqrt(G/2)(|g><g|-|r><r|) whose dissipator equals Pulser's "
@@ -435,6 +437,189 @@ def _ser(a):
     return [[[float(z.real), float(z.imag)] for z in row] for row in np.asarray(a)]
 
 
+# ------------------------------------------------------------------ PulserData.__init__: which model's channels
+K_PDATA = "C24-pulserdata-operators-not-from-effective-model"
+
+
+def gen_pdata_kwargs(rng, xy: bool, lindblad: bool):
+    """JSON-friendly NoiseModel kwargs (eff operators as nested [re, im] lists)"""
+    kw = {}
+    if lindblad:
+        if not xy and rng.random() < 0.6:
+            kw["relaxation_rate"] = _rate(rng) or 0.5
+        if rng.random() < 0.5:
+            kw["dephasing_rate"] = _rate(rng) or 0.5
+        if rng.random() < 0.5:
+            kw["depolarizing_rate"] = _rate(rng) or 0.5
+        dim = rng.choice([2, 3])
+        n_eff = rng.choice([0, 1, 2]) if dim == 2 else rng.choice([1, 2])
+        if n_eff:
+            kw["eff_noise_rates"] = [_rate(rng) or 0.5 for _ in range(n_eff)]
+            kw["eff_noise_opers"] = [_ser(_cop(rng, dim, dim, rng.choice(["unit", "dyadic", "gauss"]))) for _ in range(n_eff)]
+        if dim == 3:
+            kw["with_leakage"] = True
+        if not kw:
+            kw["depolarizing_rate"] = 0.5
+    if rng.random() < 0.4:
+        kw["state_prep_error"] = 0.1
+    if not xy and rng.random() < 0.2:
+        kw["amp_sigma"] = 0.05
+    return kw
+
+
+def kw_to_model(kw):
+    from pulser.noise_model import NoiseModel
+    if kw is None:
+        return None
+    kw = dict(kw)
+    if "eff_noise_opers" in kw:
+        kw["eff_noise_opers"] = [np.array([[complex(*z) for z in row] for row in o]) for o in kw["eff_noise_opers"]]
+    return NoiseModel(**kw)
+
+
+def build_pdata(it: str, prefer: bool, dev_nm, cfg_nm):
+    """the real PulserData.__init__ on a tiny real sequence -> (pd | exception, sqrt tape, device model, config)"""
+    import dataclasses
+    import warnings
+    import pulser
+    from pulser.devices import MockDevice
+    from harness import compat
+    compat.install()
+    import emu_base.jump_lindblad_operators as jl
+    from emu_base import PulserData
+    dev = dataclasses.replace(MockDevice, default_noise_model=dev_nm)
+    reg = pulser.Register({"q0": (0, 0), "q1": (6, 0)})
+    seq = pulser.Sequence(reg, dev)
+    if it == "XY":
+        seq.declare_channel("ch", "mw_global")
+    else:
+        seq.declare_channel("ch", "rydberg_global")
+    seq.add(pulser.Pulse.ConstantPulse(40, 3.0, 0.0, 0.0), "ch")
+    proxy = _MathProxy()
+    with warnings.catch_warnings():
+        warnings.simplefilter("ignore")
+        kw = {} if cfg_nm is None else dict(noise_model=cfg_nm)
+        cfg = compat.mps_config(prefer_device_noise_model=prefer, dt=10, **kw)
+        with mock.patch.object(jl, "math", proxy):
+            try:
+                pd = PulserData(sequence=seq, config=cfg, dt=cfg.dt)
+            except Exception as e:  # noqa: BLE001
+                pd = e
+    return pd, proxy.calls, seq, cfg
+
+
+def _pdata_fields(nm):
+    if nm is None:
+        nm = types.SimpleNamespace(noise_types=(), relaxation_rate=0.0, dephasing_rate=0.0, depolarizing_rate=0.0,
+                                   hyperfine_dephasing_rate=0.0, eff_noise_rates=(), eff_noise_opers=())
+        present = "0"
+    else:
+        present = "1"
+    f = _model_fields(nm, [])
+    return [present] + f[:5] + f[6:]
+
+
+def pdata_check_one(it, prefer, dev_kw, cfg_kw, measured):
+    """-> dict(skip=…) | dict(lines, out, dim, fail=[(msg, klass)], pending=[…])"""
+    from pulser._hamiltonian_data import HamiltonianData
+    import emu_base.pulser_adapter as pa
+    dev_nm, cfg_nm = kw_to_model(dev_kw), kw_to_model(cfg_kw)
+    pd, tape, seq, cfg = build_pdata(it, prefer, dev_nm, cfg_nm)
+    from pulser.noise_model import NoiseModel
+    eff = (dev_nm if prefer else cfg.noise_model) or NoiseModel()
+    try:   # does pulser accept the model in effect on this sequence?
+        hd = HamiltonianData.from_sequence(seq, noise_model=eff, n_trajectories=1)
+        dim = hd.basis_data.dim
+    except Exception as e:  # noqa: BLE001
+        return dict(skip=f"pulser refuses the effective model: {type(e).__name__}")
+    res = dict(fail=[], pending=[], dim=dim)
+    cfg_model_for_line = None if cfg.noise_model is None else cfg.noise_model
+    head = ["0" if it == "ising" else "1", str(dim), "1" if prefer else "0", lst(f"{f2b(a)}:{f2b(b)}" for a, b in tape)]
+    res["lines"] = [" ".join(["noise.pdata", v] + head + _pdata_fields(dev_nm) + _pdata_fields(cfg_model_for_line)) for v in ("0", "1")]
+    if isinstance(pd, Exception):
+        res["out"] = ("err", _exc_kind(pd))
+        res["fail"].append((f"PulserData.__init__ raised {type(pd).__name__}: {str(pd)[:120]} although pulser accepts the "
+                            f"noise model in effect (prefer_device_noise_model={prefer})", K_PDATA))
+        return res
+    res["out"] = ("ok", [np.array(o.detach().cpu().numpy(), dtype=complex) for o in pd.lindblad_ops])
+    if pd.noise_model is not eff and not (dev_nm is None and prefer) and not (cfg.noise_model is None and not prefer):
+        res["fail"].append((f"PulserData.noise_model is not the model in effect (prefer_device_noise_model={prefer})", None))
+    if pd.dim != dim:
+        res["fail"].append((f"PulserData.dim={pd.dim} but the effective model's basis has {dim} levels", None))
+    (tag, want), _ = run_impl_all(pd.noise_model, it, pd.dim)
+    if tag != "ok" or not same(("ok", want), res["out"]):
+        res["fail"].append((f"PulserData.lindblad_ops ({len(res['out'][1])} operators) are not the jump operators of the noise "
+                            f"model in effect {tuple(pd.noise_model.noise_types)} (prefer_device_noise_model={prefer}, "
+                            f"config model {tuple(cfg.noise_model.noise_types) if cfg.noise_model else None})", K_PDATA))
+        return res
+    try:
+        ref = pulser_collapse_ops(pd.noise_model, it, pd.dim)
+    except Exception:  # noqa: BLE001
+        return res
+    S_emu = superop(res["out"][1], pd.dim)
+    S_ref = superop(transport(ref, to_pulser(it, pd.dim, measured)), pd.dim)
+    scale = max(1.0, float(np.abs(S_ref).max()), float(np.abs(S_emu).max()))
+    if float(np.abs(S_emu - S_ref).max()) > 1e-12 * scale:
+        ch = channel_mismatches(pd.noise_model, it, pd.dim, measured)
+        if ch:
+            res["pending"] = ch
+        else:
+            res["fail"].append(("PulserData.lindblad_ops: total dissipator differs from pulser-core's for the model in effect", None))
+    return res
+
+
+def pulserdata_stage(rep: Report, rng, measured, n: int) -> None:
+    """{prefer_device_noise_model} x {device default model: None / no Lindblad channel / Lindblad channels} x
+    {config.noise_model: not given / different Lindblad channels} on the real PulserData.__init__."""
+    cases, lines, pend = [], [], []
+    counts = {}
+    for i in range(n):
+        it = rng.choice(["ising", "ising", "XY"])
+        prefer = rng.random() < 0.6
+        dkind = rng.choice(["none", "plain", "lindblad", "lindblad"])
+        ckind = rng.choice(["default", "lindblad", "lindblad"])
+        dev_kw = None if dkind == "none" else gen_pdata_kwargs(rng, it == "XY", dkind == "lindblad")
+        cfg_kw = None if ckind == "default" else gen_pdata_kwargs(rng, it == "XY", True)
+        data = dict(pdata=dict(it=it, prefer=prefer, device=dev_kw, config=cfg_kw))
+        try:
+            r = pdata_check_one(it, prefer, dev_kw, cfg_kw, measured)
+        except Exception as e:  # noqa: BLE001 — could not even build the case (pulser rejects the kwargs)
+            rep.hist("pdata_outcome", "unbuildable:" + type(e).__name__)
+            continue
+        if "skip" in r:
+            rep.hist("pdata_outcome", "skip")
+            continue
+        rep.hist("pdata_case", f"prefer={int(prefer)} dev={dkind} cfg={ckind} {it}")
+        rep.hist("pdata_outcome", r["out"][1] if r["out"][0] == "err" else f"ok{len(r['out'][1])}")
+        for msg, klass in r["fail"]:
+            rep.fail(msg, data, klass=klass)
+        for q in r["pending"]:
+            q["msg"] = "PulserData.lindblad_ops: " + q["msg"]
+        pend += r["pending"]
+        cases.append((r, data))
+        lines += r["lines"]
+    try:
+        mo = Driver().batch(lines)
+    except LeanError as e:
+        rep.broke("driver (pulserdata): " + str(e)[-600:])
+        mo = None
+    if mo is not None:
+        dis = 0
+        for k, (r, data) in enumerate(cases):
+            a = same(parse_model(mo[2 * k], r["dim"]), r["out"])
+            b = same(parse_model(mo[2 * k + 1], r["dim"]), r["out"])
+            rep.case(key=r["lines"][0], nontrivial=True, sample=dict(path="PulserData.__init__", **{k2: str(v)[:60] for k2, v in data["pdata"].items()}))
+            if not a and not b:
+                dis += 1
+                if dis <= 3:
+                    rep.broke("correspondence Model.Noise.pulserDataLindblad vs PulserData.lindblad_ops: "
+                              + json.dumps(data)[:400] + f" model={mo[2 * k][:160]} impl={str(r['out'])[:160]}")
+        rep.extra["pulserdata_disagreements"] = dis
+    resolve_pending(rep, pend, counts)
+    rep.extra["pulserdata_classes"] = counts
+    rep.extra["pulserdata_cases"] = len(cases)
+
+
 # ------------------------------------------------------------------ check
 def check(rep: Report, tier: str, seed: int) -> None:
     rep.rule = ("cases = (noise model, queried noise type, interaction type, dim) from one PRNG; models are real "
@@ -537,6 +722,9 @@ def check(rep: Report, tier: str, seed: int) -> None:
     # ---- property oracle on the real code: dissipators vs pulser-core ------------------
     dissipator_oracle(rep, rng, measured, 250 if tier == "quick" else 6000)
 
+    # ---- PulserData.__init__: the operators come from the noise model in effect ----------
+    pulserdata_stage(rep, rng, measured, 60 if tier == "quick" else 1500)
+
     # ---- Lean witnesses replayed on the real code (classified like any other mismatch) ---
     resolve_pending(rep, witness_pending(measured), rep.extra.setdefault("witness_classes", {}))
 
@@ -598,7 +786,11 @@ def replay(rep: Report, path: str) -> int:
     for f in data.get("failing_inputs", []):
         d = f["data"]
         msg = None
-        if "noise_types" in d:
+        if "pdata" in d:
+            q = d["pdata"]
+            r = pdata_check_one(q["it"], q["prefer"], q["device"], q["config"], measured)
+            msg = "; ".join(m for m, _ in r.get("fail", [])) or None
+        elif "noise_types" in d:
             kw = {}
             for k in ("relaxation", "dephasing", "depolarizing"):
                 if k in d["noise_types"]:
